@@ -36,8 +36,12 @@ class Cmp(object):
 
     # -- values
     def val_eq(self, a, b):
+        if isinstance(b, Opaque) and b.path == ("any",):
+            return True
         if isinstance(a, Num) and isinstance(b, Num):
-            return ep.equal(a.rf, b.rf)[0]
+            if ep.equal(a.rf, b.rf)[0]:
+                return True
+            return rf_struct_eq(a.rf, b.rf)
         if isinstance(a, Num) and isinstance(b, Opaque):
             return ep.equal(a.rf, ep.app(b.path, []))[0]
         if isinstance(b, Num) and isinstance(a, Opaque):
@@ -201,6 +205,18 @@ def is_strish(v):
 
 
 def key_eq(a, b):
+    if isinstance(a, tuple) and isinstance(b, tuple) and len(a) == 2 and len(b) == 2 and a[0] == "sorted" and b[0] == "sorted":
+        xs, ys = list(a[1]), list(b[1])
+        if len(xs) != len(ys):
+            return False
+        for x in xs:
+            for i, y in enumerate(ys):
+                if key_eq(x, y):
+                    del ys[i]
+                    break
+            else:
+                return False
+        return True
     if isinstance(a, tuple) and isinstance(b, tuple):
         return len(a) == len(b) and all(key_eq(x, y) for x, y in zip(a, b))
     if isinstance(a, ep.RF) and isinstance(b, ep.RF):
@@ -222,3 +238,47 @@ def compare(interp, found, expect, opts=None):
     c = Cmp(interp, opts)
     c.nodes(found, expect)
     return c
+
+
+def rf_struct_eq(a, b):
+    """equality of normal forms whose opaque function keys are compared with key_eq
+    (keys may contain sorted multisets and algebraic sub-terms)"""
+    a, b = ep.rf(a), ep.rf(b)
+    pa = a.n * b.d
+    pb = b.n * a.d
+    ta, tb = list(pa.t.items()), list(pb.t.items())
+    if len(ta) != len(tb):
+        return False
+    for m, c in ta:
+        for i, (m2, c2) in enumerate(tb):
+            if ep._close(c, c2) and mono_eq(m, m2):
+                del tb[i]
+                break
+        else:
+            return False
+    return True
+
+
+def mono_eq(m1, m2):
+    f1, f2 = list(m1.f), list(m2.f)
+    if len(f1) != len(f2):
+        return False
+    for a, e in f1:
+        for i, (a2, e2) in enumerate(f2):
+            if e == e2 and atom_eq(a, a2):
+                del f2[i]
+                break
+        else:
+            return False
+    return True
+
+
+def atom_eq(a, b):
+    if a == b:
+        return True
+    if isinstance(a, ep.AppA) and isinstance(b, ep.AppA):
+        return a.dorder == b.dorder and len(a.args) == len(b.args) and key_eq(a.fn, b.fn) \
+            and all(ep.equal(x, y)[0] or rf_struct_eq(x, y) for x, y in zip(a.args, b.args))
+    if isinstance(a, ep.ExpA) and isinstance(b, ep.ExpA):
+        return rf_struct_eq(ep.RF(a.arg), ep.RF(b.arg))
+    return False
